@@ -5,6 +5,24 @@ LEVEL = "model_checking"
 
 def run(ctx):
     rulescommon.run(ctx, "C04")
+    # first clause of C04 on single patterns: a variable that occurs twice must stand for identical code.  Align.tla
+    # LegalB = a legal alignment in which every occurrence of a captured variable is code identical (TreeEq) to the
+    # binding the real match reported; candidates include sub-terms equal up to trailing optional children.
+    import vlib
+    rec = ctx.path("c04-repeated.ndjson")
+    summ = vlib.agv_ok(ctx, ["drive", "c04rep", "--out", rec], timeout=1200)
+    n, fails = vlib.validate_trace(ctx, "trace/Trace_Match.tla", "trace/Trace_Match.cfg", rec, timeout=1800)
+    for f in fails:
+        case = vlib.nth_line(rec, f["index"])
+        for reason in f["reasons"]:
+            if reason[0] != "same-variable-different-code":
+                continue
+            vlib.report_failure(ctx, {"reason": reason[0], "strictness": reason[1]},
+                                {"record": {"id": case["id"], "pattern": case["pattern"], "cand": case["cand"], "outs": case["outs"]},
+                                 "reason": reason, "seed": ctx.seed, "tier": ctx.tier},
+                                "pattern %r on %r at %s: %s" % (case["pattern"], case["cand"], reason[1], reason[0]))
+    ctx.cov["repeated_variable_pattern_records"] = n
+    ctx.cov["evaluations"] = ctx.cov.get("evaluations", 0) + 5 * n
 
 
 def replay(ctx, path):
